@@ -1280,10 +1280,15 @@ func (r *pilosaRoaringIterator) Next() (key uint64, cType byte, n int, length in
 	// a run container keeps its data after an initial 2 byte length header
 	var runCount uint16
 	if r.currentType == containerRun {
+		if int64(r.currentDataOffset)+runCountHeaderSize > int64(len(r.data)) {
+			r.Done(fmt.Errorf("container %d/%d, key %d, had run header at offset %d, maximum %d",
+				r.currentIdx, r.keys, r.currentKey, r.currentDataOffset, len(r.data)))
+			return r.Current()
+		}
 		runCount = binary.LittleEndian.Uint16(r.data[r.currentDataOffset : r.currentDataOffset+runCountHeaderSize])
 		r.currentDataOffset += 2
 	}
-	if r.currentDataOffset > uint32(len(r.data)) || r.currentDataOffset < headerBaseSize {
+	if r.currentDataOffset >= uint32(len(r.data)) || r.currentDataOffset < headerBaseSize {
 		r.Done(fmt.Errorf("container %d/%d, key %d, had offset %d, maximum %d",
 			r.currentIdx, r.keys, r.currentKey, r.currentDataOffset, len(r.data)))
 		return r.Current()
@@ -1333,10 +1338,15 @@ func (r *officialRoaringIterator) Next() (key uint64, cType byte, n int, length 
 	// a run container keeps its data after an initial 2 byte length header
 	var runCount uint16
 	if r.currentType == containerRun {
+		if int64(r.currentDataOffset)+runCountHeaderSize > int64(len(r.data)) {
+			r.Done(fmt.Errorf("container %d/%d, key %d, had run header at offset %d, maximum %d",
+				r.currentIdx, r.keys, r.currentKey, r.currentDataOffset, len(r.data)))
+			return r.Current()
+		}
 		runCount = binary.LittleEndian.Uint16(r.data[r.currentDataOffset : r.currentDataOffset+runCountHeaderSize])
 		r.currentDataOffset += 2
 	}
-	if r.currentDataOffset > uint32(len(r.data)) || r.currentDataOffset < headerBaseSize {
+	if r.currentDataOffset >= uint32(len(r.data)) || r.currentDataOffset < headerBaseSize {
 		r.Done(fmt.Errorf("container %d/%d, key %d, had offset %d, maximum %d",
 			r.currentIdx, r.keys, r.currentKey, r.currentDataOffset, len(r.data)))
 		return r.Current()
@@ -1351,6 +1361,16 @@ func (r *officialRoaringIterator) Next() (key uint64, cType byte, n int, length 
 		r.currentLen = 1024
 		size = 8192
 	case containerRun:
+		if int64(r.currentDataOffset)+int64(runCount)*interval16Size > int64(len(r.data)) {
+			r.Done(fmt.Errorf("container %d/%d, key %d, had offset %d+%d size, maximum %d",
+				r.currentIdx, r.keys, r.currentKey, r.currentDataOffset, int(runCount)*interval16Size, len(r.data)))
+			return r.Current()
+		}
+		if runCount == 0 {
+			r.Done(fmt.Errorf("container %d/%d, key %d, is a run container without runs",
+				r.currentIdx, r.keys, r.currentKey))
+			return r.Current()
+		}
 		// official format stores runs as start/len, we want to convert, but since
 		// they might be mmapped, we can't write to that memory
 		newRuns := make([]interval16, runCount)
@@ -1578,7 +1598,8 @@ func (b *Bitmap) unmarshalPilosaRoaring(data []byte) error {
 
 	// Read key count in bytes sizeof(cookie)+sizeof(flag):(sizeof(cookie)+sizeof(uint32)).
 	keyN := binary.LittleEndian.Uint32(data[3+1 : 8])
-	if uint32(len(data)) < headerBaseSize+keyN*12 {
+	// each container has a 12 byte key-cardinality entry and a 4 byte offset
+	if uint64(len(data)) < headerBaseSize+uint64(keyN)*(12+4) {
 		return fmt.Errorf("malformed bitmap, key-cardinality not provided for %d containers", int(keyN)/12)
 	}
 
@@ -1612,13 +1633,29 @@ func (b *Bitmap) unmarshalPilosaRoaring(data []byte) error {
 		}
 		switch c.typ() {
 		case containerRun:
+			if int64(offset)+runCountHeaderSize > int64(len(data)) {
+				return fmt.Errorf("run count out of bounds: off=%d, len=%d", offset, len(data))
+			}
 			runCount := binary.LittleEndian.Uint16(data[offset : offset+runCountHeaderSize])
-			c.setRuns((*[0xFFFFFFF]interval16)(unsafe.Pointer(&data[offset+runCountHeaderSize]))[:runCount:runCount])
+			if int64(offset)+runCountHeaderSize+int64(runCount)*interval16Size > int64(len(data)) {
+				return fmt.Errorf("runs out of bounds: off=%d, runs=%d, len=%d", offset, runCount, len(data))
+			}
+			if runCount == 0 {
+				c.setRuns(nil)
+			} else {
+				c.setRuns((*[0xFFFFFFF]interval16)(unsafe.Pointer(&data[offset+runCountHeaderSize]))[:runCount:runCount])
+			}
 			opsOffset = int(offset) + runCountHeaderSize + len(c.runs())*interval16Size
 		case containerArray:
+			if int64(offset)+int64(c.N())*2 > int64(len(data)) {
+				return fmt.Errorf("array out of bounds: off=%d, n=%d, len=%d", offset, c.N(), len(data))
+			}
 			c.setArray((*[0xFFFFFFF]uint16)(unsafe.Pointer(&data[offset]))[:c.N():c.N()])
 			opsOffset = int(offset) + len(c.array())*2 // sizeof(uint32)
 		case containerBitmap:
+			if int64(offset)+bitmapN*8 > int64(len(data)) {
+				return fmt.Errorf("bitmap out of bounds: off=%d, len=%d", offset, len(data))
+			}
 			c.setBitmap((*[0xFFFFFFF]uint64)(unsafe.Pointer(&data[offset]))[:bitmapN:bitmapN])
 			opsOffset = int(offset) + len(c.bitmap())*8 // sizeof(uint64)
 		}
@@ -4536,7 +4573,8 @@ func (op *op) UnmarshalBinary(data []byte) error {
 		}
 		op.value = 0
 	case opTypeAddRoaring, opTypeRemoveRoaring:
-		if len(data) < int(13+4+op.value) {
+		// compare as uint64 first: int(13+4+op.value) wraps negative for huge values
+		if op.value > uint64(len(data)) || len(data) < int(13+4+op.value) {
 			return fmt.Errorf("op data truncated - expected %d, got %d", 13+op.value, len(data))
 		}
 		op.opN = int(binary.LittleEndian.Uint32(data[13:17]))
@@ -5142,6 +5180,9 @@ func (b *Bitmap) UnmarshalBinary(data []byte) error {
 	}
 	statsHit("Bitmap/UnmarshalBinary")
 	b.opN = 0 // reset opN since we're reading new data.
+	if len(data) < 2 {
+		return errors.New("data too small")
+	}
 	fileMagic := uint32(binary.LittleEndian.Uint16(data[0:2]))
 	if fileMagic == MagicNumber { // if pilosa roaring
 		return errors.Wrap(b.unmarshalPilosaRoaring(data), "unmarshaling as pilosa roaring")
@@ -5200,8 +5241,14 @@ func readOffsets(b *Bitmap, data []byte, pos int, keyN uint32) error {
 		_, c := citer.Value()
 		switch c.typ() {
 		case containerArray:
+			if int64(offset)+int64(c.N())*2 > int64(len(data)) {
+				return fmt.Errorf("array out of bounds: off=%d, n=%d, len=%d", offset, c.N(), len(data))
+			}
 			c.setArray((*[0xFFFFFFF]uint16)(unsafe.Pointer(&data[offset]))[:c.N():c.N()])
 		case containerBitmap:
+			if int64(offset)+bitmapN*8 > int64(len(data)) {
+				return fmt.Errorf("bitmap out of bounds: off=%d, len=%d", offset, len(data))
+			}
 			c.setBitmap((*[0xFFFFFFF]uint64)(unsafe.Pointer(&data[offset]))[:bitmapN:bitmapN])
 		default:
 			return fmt.Errorf("unsupported container type %d", c.typ())
@@ -5220,18 +5267,36 @@ func readWithRuns(b *Bitmap, data []byte, pos int, keyN uint32) error {
 		_, c := citer.Value()
 		switch c.typ() {
 		case containerRun:
-			runCount := binary.LittleEndian.Uint16(data[pos : pos+runCountHeaderSize])
-			c.setRuns((*[0xFFFFFFF]interval16)(unsafe.Pointer(&data[pos+runCountHeaderSize]))[:runCount:runCount])
-			runs := c.runs()
-
-			for o := range runs { // must convert from start:length to start:end :(
-				runs[o].last = runs[o].start + runs[o].last
+			if len(data) < pos+runCountHeaderSize {
+				return fmt.Errorf("run count incomplete: pos=%d, len=%d", pos, len(data))
 			}
-			pos += int((runCount * interval16Size) + runCountHeaderSize)
+			runCount := int(binary.LittleEndian.Uint16(data[pos : pos+runCountHeaderSize]))
+			pos += runCountHeaderSize
+			if len(data) < pos+runCount*interval16Size {
+				return fmt.Errorf("runs incomplete: pos=%d, runs=%d, len=%d", pos, runCount, len(data))
+			}
+			// The official format stores runs as start:length. Convert to
+			// start:last in fresh storage: the input may be read-only
+			// (mmapped) and must not be modified in any case.
+			runs := make([]interval16, runCount)
+			for o := range runs {
+				start := binary.LittleEndian.Uint16(data[pos+o*interval16Size:])
+				length := binary.LittleEndian.Uint16(data[pos+o*interval16Size+2:])
+				runs[o] = interval16{start: start, last: start + length}
+			}
+			c.setRuns(runs)
+			c.setMapped(false)
+			pos += runCount * interval16Size
 		case containerArray:
+			if len(data) < pos+int(c.N())*2 {
+				return fmt.Errorf("array incomplete: pos=%d, n=%d, len=%d", pos, c.N(), len(data))
+			}
 			c.setArray((*[0xFFFFFFF]uint16)(unsafe.Pointer(&data[pos]))[:c.N():c.N()])
 			pos += int(c.N() * 2)
 		case containerBitmap:
+			if len(data) < pos+bitmapN*8 {
+				return fmt.Errorf("bitmap incomplete: pos=%d, len=%d", pos, len(data))
+			}
 			c.setBitmap((*[0xFFFFFFF]uint64)(unsafe.Pointer(&data[pos]))[:bitmapN:bitmapN])
 			pos += bitmapN * 8
 		}
